@@ -97,6 +97,13 @@ def do_run(args):
                       "threads=%d: %s of %s calls returned something else than the sequential table; first: %s" % (
                           nt, r["mism"], r["calls"], first),
                       rt.replay_obj(FL, lines + ["mt %d %d %d 0 %d" % (nt, iters, seed, only)]))
+    acc.count("os_entropy_salts_compared", int(r.get("ossalts", 0)))
+    if int(r.get("osdups", 0)) or int(r.get("osflat", 0)):
+        first = bytes.fromhex(r.get("first", "")).decode("latin1") if r.get("first") else ""
+        acc.violation("%s/os-entropy-salt-repeated-under-concurrency" % PID,
+                      "threads=%d: of %s salts drawn from the operating system's generator %s were returned twice and "
+                      "%s consist of one repeated character; first: %s" % (nt, r["ossalts"], r["osdups"], r["osflat"], first),
+                      rt.replay_obj(FL, lines + ["mt %d %d %d 0 %d" % (nt, iters, seed, only)]))
     reps = tsan_reports(err)
     for head, libf, text in reps:
         acc.violation("%s/tsan/%s" % (PID, (libf[0] if libf else "no-lib-frame")),
@@ -140,9 +147,9 @@ def run(tier):
             if t[1] == "c" and r.get("x", "-") != "-":
                 present[gen.METHODS[int(t[2])]] += 1
     if tier == "quick":
-        plan = [(8, 150), (8, 150), (4, 150), (16, 80)]
+        plan = [(8, 150), (8, 150), (4, 150), (16, 80), (40, 30)]
     else:
-        plan = [(t, 400) for t in (2, 4, 8, 16) for _ in range(3)]
+        plan = [(t, 400) for t in (2, 4, 8, 16) for _ in range(3)] + [(40, 100), (64, 60)]
     work = [(path, lines, nt, it, run_.seed * 1000 + i) for i, (nt, it) in enumerate(plan)]
     reps = 1 if tier == "quick" else 4
     for k in range(reps):
@@ -166,6 +173,9 @@ def run(tier):
         avg = max(1.0, sum(costs) / max(1, len(costs)))
         iters = int(min(4000, max(60, (900000 if tier == "quick" else 4000000) / avg)))
         owork.append((opt_path, lines, 8, iters, run_.seed * 31 + mi, "opt-hammer", mi))
+    # "any number of threads": far more callers than cores, all inside the library at once
+    owork.append((opt_path, lines, 48, 60 if tier == "quick" else 300, run_.seed * 37 + 1, "opt-many-threads", -1))
+    owork.append((opt_path, lines, 64, 40 if tier == "quick" else 200, run_.seed * 37 + 2, "opt-many-threads", -1))
     for acc in pool.pmap(do_run, owork, nproc=4):
         run_.merge(acc)
     # a few LARGE hashes at the same time (512 MiB each, 1.5-2 GiB together): what concurrent calls share may be a
@@ -183,7 +193,8 @@ def run(tier):
     # one): other shared state may live there
     from . import C19
     import shutil
-    none = {"HAVE_EXPLICIT_BZERO": None, "HAVE_MEMSET_S": None, "HAVE_EXPLICIT_MEMSET": None, "HAVE_MEMSET_EXPLICIT": None}
+    none = {"HAVE_EXPLICIT_BZERO": None, "HAVE_MEMSET_S": None, "HAVE_EXPLICIT_MEMSET": None, "HAVE_MEMSET_EXPLICIT": None,
+            "HAVE_ARC4RANDOM_BUF": None}        # ... and without arc4random_buf: getentropy() is the entropy source
     bname, en, vexe, verr, _ = C19.build_config(("c08-fallbacks", list(gen.METHODS), none, "-O1 -g -fsanitize=thread"))
     if vexe is None:
         run_.acc.inconc("TSan build with the fallback implementations failed: " + verr[-300:])
@@ -191,6 +202,11 @@ def run(tier):
         try:
             vwork = [(vexe, lines, 8, 100 if tier == "quick" else 300, run_.seed * 4242 + i, "mix-fallbacks", -1)
                      for i in range(2 if tier == "quick" else 8)]
+            # setting generation only (half of it with entropy from the operating system): every thread inside
+            # the entropy source at once
+            glines = [ln for ln in lines if ln.startswith("mtadd g ")]
+            vwork += [(vexe, glines, nt_, 400 if tier == "quick" else 2000, run_.seed * 4343 + nt_, "gensalt-fallbacks", -1)
+                      for nt_ in (8, 24)]
             for acc in pool.pmap(do_run, vwork, nproc=2):
                 run_.merge(acc)
         finally:
@@ -211,7 +227,9 @@ def run(tier):
                 "runs (fresh process, one method, expectations computed after the threads ran so that first use is "
                 "concurrent); distinct = (run kind, method, thread count)" % len(lines),
         "runs": int(a.n.get("runs", 0)),
-        "runs_by_kind": {k: int(a.n.get("runs_" + k, 0)) for k in ("mix", "hammer", "cold", "opt-hammer")},
+        "runs_by_kind": {k: int(a.n.get("runs_" + k, 0)) for k in ("mix", "hammer", "cold", "opt-hammer", "opt-many-threads",
+                                                                        "big-overlap", "mix-fallbacks", "gensalt-fallbacks")},
+        "salts_from_os_entropy_compared_for_repeats": int(a.n.get("os_entropy_salts_compared", 0)),
         "overlapping_cross_thread_call_pairs": int(a.n.get("overlapping_call_pairs", 0)),
         "distinct_method_pairs_overlapped_per_run": sorted(a.sets.get("mpairs", ())),
         "tsan_reports_with_library_frames": int(a.n.get("tsan_reports", 0)),
